@@ -1,0 +1,233 @@
+//go:build verif
+
+// Contracts for the govc verifier (see /verif/DESIGN.md). Comment-only file.
+package listz
+
+// ---------------------------------------------------------------------------------------------------------------
+// DList: a ring of nodes through the sentinel l.root; a node belongs to l iff its list field says so.
+// The sentinel is an interior object of the list (its address is stored in the nodes); in specs l.root denotes it.
+// ---------------------------------------------------------------------------------------------------------------
+
+// e (a node of l or the sentinel) is consistently linked to neighbours that are again the sentinel or nodes of l
+//@ spec nodeOK(l ref, e ref) bool = e.next != nil && e.prev != nil && e.next.prev == e && e.prev.next == e && (e.next == l.root || e.next.list == l) && (e.prev == l.root || e.prev.list == l)
+// l is either still the zero value (no node refers to it) or a consistently linked ring
+//@ spec wf(l ref) bool = l != nil && l.root.list == nil && (l.root.next == nil ==> l.root.prev == nil) && (l.root.next != nil ==> nodeOK(l, l.root)) && (forall e in refs(DNode): (e != nil && e.list == l) ==> (e != l.root && l.root.next != nil && nodeOK(l, e)))
+// a place after which a node may be linked in
+//@ spec placeOK(l ref, at ref) bool = at != nil && (at == l.root || at.list == l)
+// nothing about any node that existed before has changed
+//@ spec nodesUnchanged() bool = forall x in oldrefs(DNode): x.next == old(x.next) && x.prev == old(x.prev) && x.list == old(x.list)
+
+//@ func DNode.Next
+//@   noalloc
+//@   requires e != nil
+//@   ensures result == ite(e.list != nil && e.next != e.list.root, e.next, nil)
+
+//@ func DNode.Prev
+//@   noalloc
+//@   requires e != nil
+//@   ensures result == ite(e.list != nil && e.prev != e.list.root, e.prev, nil)
+
+//@ func DList.Init
+//@   noalloc
+//@   requires l != nil
+//@   modifies l.root.next, l.root.prev, l.len
+//@   ensures result == l && l.root.next == l.root && l.root.prev == l.root && l.len == 0
+
+//@ func NewDoubly
+//@   ensures fresh(result) && result.root.next == result.root && result.root.prev == result.root && result.len == 0 && result.root.list == nil
+
+//@ func DList.Len
+//@   inline
+
+//@ func DList.Front
+//@   noalloc
+//@   requires l != nil
+//@   ensures result == ite(l.len == 0, nil, l.root.next)
+
+//@ func DList.Back
+//@   noalloc
+//@   requires l != nil
+//@   ensures result == ite(l.len == 0, nil, l.root.prev)
+
+//@ func DList.lazyInit
+//@   noalloc
+//@   nomerge
+//@   requires l != nil && wf(l) && (l.root.next == nil ==> l.len == 0)
+//@   modifies l.root.next, l.root.prev, l.len
+//@   ensures wf(l) && l.root.next != nil && l.len == old(l.len)
+//@   ensures old(l.root.next) != nil ==> (l.root.next == old(l.root.next) && l.root.prev == old(l.root.prev))
+//@   ensures old(l.root.next) == nil ==> (l.root.next == l.root && l.root.prev == l.root)
+
+// the splice primitives: exact pointer-level effect, invariant preserved, nothing else touched (frame)
+//@ func DList.insert
+//@   noalloc
+//@   requires wf(l) && l.root.next != nil && placeOK(l, at) && e != nil && e != l.root && e.list == nil && l.len < 9223372036854775807
+//@   modifies e.prev, e.next, e.list, at.next, at.next.prev, l.len
+//@   ensures result == e && e.prev == at && e.next == old(at.next) && at.next == e && old(at.next).prev == e && e.list == l && l.len == old(l.len) + 1
+//@   ensures wf(l)
+
+//@ func DList.insertValue
+//@   requires wf(l) && l.root.next != nil && placeOK(l, at) && l.len < 9223372036854775807
+//@   modifies at.next, at.next.prev, l.len
+//@   ensures fresh(result) && result.Value == v && result.prev == at && result.next == old(at.next) && at.next == result && old(at.next).prev == result && result.list == l && l.len == old(l.len) + 1
+//@   ensures wf(l)
+
+//@ func DList.remove
+//@   noalloc
+//@   requires wf(l) && e != nil && e.list == l && l.len > -9223372036854775808
+//@   modifies e.prev.next, e.next.prev, e.next, e.prev, e.list, l.len
+//@   ensures e.next == nil && e.prev == nil && e.list == nil && l.len == old(l.len) - 1
+//@   ensures (old(e.prev) != e && old(e.next) != e) ==> (old(e.prev).next == old(e.next) && old(e.next).prev == old(e.prev))
+//@   ensures wf(l)
+
+//@ func DList.move
+//@   noalloc
+//@   requires wf(l) && e != nil && e.list == l && placeOK(l, at)
+//@   modifies e.prev.next, e.next.prev, e.next, e.prev, at.next, at.next.prev
+//@   ensures wf(l) && e.list == l
+//@   ensures e == at ==> nodesUnchanged()
+//@   ensures e != at ==> (e.prev == at && at.next == e && e.next == ite(old(at.next) == e, old(e.next), old(at.next)) && e.next.prev == e)
+//@   ensures (e != at && old(e.prev) != at && old(e.prev) != e && old(e.next) != e) ==> (old(e.prev).next == old(e.next) && old(e.next).prev == ite(old(e.next) == old(at.next), e, old(e.prev)))
+
+// ---- public operations: ownership checks make stale and foreign nodes no-ops ----
+//@ func DList.Remove
+//@   noalloc
+//@   requires wf(l) && e != nil && l.len > -9223372036854775808
+//@   modifies e.prev.next, e.next.prev, e.next, e.prev, e.list, l.len
+//@   ensures result == old(e.Value) && wf(l)
+//@   ensures old(e.list) == l ==> (e.next == nil && e.prev == nil && e.list == nil && l.len == old(l.len) - 1 && ((old(e.prev) != e && old(e.next) != e) ==> (old(e.prev).next == old(e.next) && old(e.next).prev == old(e.prev))))
+//@   ensures old(e.list) != l ==> (nodesUnchanged() && l.len == old(l.len))
+
+//@ func DList.PushFront
+//@   requires wf(l) && (l.root.next == nil ==> l.len == 0) && l.len < 9223372036854775807
+//@   modifies l.root.next, l.root.prev, l.root.next.prev, l.len
+//@   ensures fresh(result) && result.Value == v && result.list == l && l.root.next == result && result.prev == l.root && l.len == old(l.len) + 1 && wf(l)
+//@   ensures result.next == ite(old(l.root.next) == nil, l.root, old(l.root.next))
+
+//@ func DList.PushBack
+//@   requires wf(l) && (l.root.next == nil ==> l.len == 0) && l.len < 9223372036854775807
+//@   modifies l.root.next, l.root.prev, l.root.prev.next, l.len
+//@   ensures fresh(result) && result.Value == v && result.list == l && l.root.prev == result && result.next == l.root && l.len == old(l.len) + 1 && wf(l)
+//@   ensures result.prev == ite(old(l.root.next) == nil, l.root, old(l.root.prev))
+
+//@ func DList.InsertBefore
+//@   requires wf(l) && mark != nil && l.len < 9223372036854775807
+//@   modifies mark.prev, mark.prev.next, l.len
+//@   ensures wf(l)
+//@   ensures mark.list != l ==> (result == nil && nodesUnchanged() && l.len == old(l.len))
+//@   ensures mark.list == l ==> (fresh(result) && result.Value == v && result.list == l && result.next == mark && mark.prev == result && result.prev == old(mark.prev) && old(mark.prev).next == result && l.len == old(l.len) + 1)
+
+//@ func DList.InsertAfter
+//@   requires wf(l) && mark != nil && l.len < 9223372036854775807
+//@   modifies mark.next, mark.next.prev, l.len
+//@   ensures wf(l)
+//@   ensures mark.list != l ==> (result == nil && nodesUnchanged() && l.len == old(l.len))
+//@   ensures mark.list == l ==> (fresh(result) && result.Value == v && result.list == l && result.prev == mark && mark.next == result && result.next == old(mark.next) && old(mark.next).prev == result && l.len == old(l.len) + 1)
+
+//@ func DList.PushFrontNode
+//@   noalloc
+//@   requires wf(l) && (l.root.next == nil ==> l.len == 0) && l.len < 9223372036854775807 && e != nil && e != l.root && e.list == nil
+//@   modifies l.root.next, l.root.prev, l.root.next.prev, l.len, e.next, e.prev, e.list
+//@   ensures e.list == l && l.root.next == e && e.prev == l.root && l.len == old(l.len) + 1 && wf(l)
+
+//@ func DList.PushBackNode
+//@   noalloc
+//@   requires wf(l) && (l.root.next == nil ==> l.len == 0) && l.len < 9223372036854775807 && e != nil && e != l.root && e.list == nil
+//@   modifies l.root.next, l.root.prev, l.root.prev.next, l.len, e.next, e.prev, e.list
+//@   ensures e.list == l && l.root.prev == e && e.next == l.root && l.len == old(l.len) + 1 && wf(l)
+
+//@ func DList.InsertNodeBefore
+//@   noalloc
+//@   requires wf(l) && mark != nil && l.len < 9223372036854775807 && e != nil && e != l.root && e.list == nil
+//@   modifies mark.prev, mark.prev.next, l.len, e.next, e.prev, e.list
+//@   ensures wf(l)
+//@   ensures old(mark.list) != l ==> (nodesUnchanged() && l.len == old(l.len))
+//@   ensures old(mark.list) == l ==> (e.list == l && e.next == mark && mark.prev == e && e.prev == old(mark.prev) && old(mark.prev).next == e && l.len == old(l.len) + 1)
+
+//@ func DList.InsertNodeAfter
+//@   noalloc
+//@   requires wf(l) && mark != nil && l.len < 9223372036854775807 && e != nil && e != l.root && e.list == nil
+//@   modifies mark.next, mark.next.prev, l.len, e.next, e.prev, e.list
+//@   ensures wf(l)
+//@   ensures old(mark.list) != l ==> (nodesUnchanged() && l.len == old(l.len))
+//@   ensures old(mark.list) == l ==> (e.list == l && e.prev == mark && mark.next == e && e.next == old(mark.next) && old(mark.next).prev == e && l.len == old(l.len) + 1)
+
+//@ func DList.MoveToFront
+//@   noalloc
+//@   requires wf(l) && e != nil
+//@   modifies e.prev.next, e.next.prev, e.next, e.prev, l.root.next, l.root.next.prev
+//@   ensures wf(l) && e.list == old(e.list) && l.len == old(l.len)
+//@   ensures old(e.list) != l ==> nodesUnchanged()
+//@   ensures old(e.list) == l ==> (l.root.next == e && e.prev == l.root)
+
+//@ func DList.MoveToBack
+//@   noalloc
+//@   requires wf(l) && e != nil
+//@   modifies e.prev.next, e.next.prev, e.next, e.prev, l.root.prev, l.root.prev.next
+//@   ensures wf(l) && e.list == old(e.list) && l.len == old(l.len)
+//@   ensures old(e.list) != l ==> nodesUnchanged()
+//@   ensures old(e.list) == l ==> (l.root.prev == e && e.next == l.root)
+
+//@ func DList.MoveBefore
+//@   noalloc
+//@   requires wf(l) && e != nil && mark != nil
+//@   modifies e.prev.next, e.next.prev, e.next, e.prev, mark.prev, mark.prev.next
+//@   ensures wf(l) && e.list == old(e.list) && l.len == old(l.len)
+//@   ensures (old(e.list) != l || e == mark || old(mark.list) != l) ==> nodesUnchanged()
+//@   ensures (old(e.list) == l && e != mark && old(mark.list) == l) ==> (e.next == mark && mark.prev == e)
+
+//@ func DList.MoveAfter
+//@   noalloc
+//@   requires wf(l) && e != nil && mark != nil
+//@   modifies e.prev.next, e.next.prev, e.next, e.prev, mark.next, mark.next.prev
+//@   ensures wf(l) && e.list == old(e.list) && l.len == old(l.len)
+//@   ensures (old(e.list) != l || e == mark || old(mark.list) != l) ==> nodesUnchanged()
+//@   ensures (old(e.list) == l && e != mark && old(mark.list) == l) ==> (e.prev == mark && mark.next == e)
+
+// ---------------------------------------------------------------------------------------------------------------
+// SList: head/tail/len. Only the constant-time operations are under contract: the index walks (Get, Remove,
+// InsertNodeAt, Swap, RemoveFront's successor) need the whole chain as a ghost sequence, which these contracts do not
+// carry; they are decided by the bounded harness (all short histories against a slice model).
+// ---------------------------------------------------------------------------------------------------------------
+//@ spec sEnds(l ref) bool = l != nil && l.len >= 0 && (l.len == 0 ==> (l.head == nil && l.tail == nil)) && (l.len > 0 ==> (l.head != nil && l.tail != nil && l.tail.next == nil))
+
+//@ func SNode.Next
+//@   inline
+//@ func SList.Len
+//@   inline
+//@ func SList.Front
+//@   inline
+//@ func SList.Back
+//@   inline
+
+//@ func NewSingly
+//@   ensures fresh(result) && result.head == nil && result.tail == nil && result.len == 0
+
+//@ func SList.withinRange
+//@   noalloc
+//@   requires l != nil
+//@   ensures result == (index >= 0 && index < l.len)
+
+//@ func SList.PushFrontNode
+//@   noalloc
+//@   requires sEnds(l) && e != nil && e != l.tail && l.len < 9223372036854775807
+//@   modifies e.next, l.head, l.tail, l.len
+//@   ensures sEnds(l) && l.head == e && e.next == old(l.head) && l.len == old(l.len) + 1 && l.tail == ite(old(l.len) == 0, e, old(l.tail))
+
+//@ func SList.PushBackNode
+//@   noalloc
+//@   requires sEnds(l) && e != nil && e != l.tail && e.next == nil && l.len < 9223372036854775807
+//@   modifies l.tail.next, l.head, l.tail, l.len
+//@   ensures sEnds(l) && l.tail == e && l.len == old(l.len) + 1 && l.head == ite(old(l.len) == 0, e, old(l.head))
+//@   ensures old(l.len) > 0 ==> old(l.tail).next == e
+
+//@ func SList.PushFront
+//@   requires sEnds(l) && l.len < 9223372036854775807
+//@   modifies l.head, l.tail, l.len
+//@   ensures sEnds(l) && fresh(l.head) && l.head.Value == v && l.head.next == old(l.head) && l.len == old(l.len) + 1
+
+//@ func SList.PushBack
+//@   requires sEnds(l) && l.len < 9223372036854775807
+//@   modifies l.tail.next, l.head, l.tail, l.len
+//@   ensures sEnds(l) && fresh(l.tail) && l.tail.Value == v && l.len == old(l.len) + 1
+//@   ensures old(l.len) > 0 ==> old(l.tail).next == l.tail
